@@ -36,6 +36,9 @@ CHECKS["C16"] = dict(engine="crosshair", technique="CrossHair (symbolic executio
 CHECKS["C03"] = dict(engine="crosshair", technique="CrossHair (symbolic execution of Python with z3) on PEP-316 round-trip conditions over models emitted by the real generator and the generated package's own converter; leaves, presence flags and list lengths symbolic",
    text="Models generated this run from the template family T_model (camelCase / snake_case / kebab-case / keyword-like / colliding-after-sanitisation names; nested object, list of object, typed map, nullable, allOf child; date-time, date, uuid, byte, number, boolean; string and integer enums): for every subset of optional properties and all symbolic leaf values CrossHair decides that unstructure(structure(doc)) equals doc up to the tolerated null/empty-container difference, under two warm-up histories of the converter.",
    note="Same trusted base and stubs as C16. Recursive models (Tree) are not covered: CrossHair reports NotDeterministic inside cattrs' handling of List[ForwardRef] (stated in DESIGN.md). Schemas outside T_model are outside the claim.", ref="§2 C03")
+CHECKS["C14"] = dict(engine="crosshair", technique="CrossHair (symbolic execution of Python with z3) on PEP-316 conditions over union aliases emitted by the real generator and the generated package's own _structure_union; variant choice, presence flags and leaves symbolic",
+   text="Union aliases generated this run from the template family U (discriminator with mapping, also nullable; disjoint required fields; one variant's required set a subset of another's, in both variant orders; all-optional variants; int|str; str|object; list|object; union-typed and nullable-union fields of a model): CrossHair decides for every symbolic choice of variant, optional keys and leaf values that encode(decode(payload)) == payload with the right variant class, that an unmapped discriminator value raises, and that a payload of a mapped variant that fails to decode raises instead of being retried as another variant.",
+   note="Same trusted base and stubs as C16. A list of unions as a model field is not covered (CrossHair fails inside cattrs' list dispatch on a symbolic element; natively the same input passes). Unions outside U are outside the claim.", ref="§2 C14")
 NA = {
  "C01": "not applicable to solver-based checking: the observation is compile()/import of a whole emitted file tree for a whole symbolic document; no kernel small enough to encode (identifier and lexical kernels are decided under C20/C15)",
  "C09": "not applicable: quantifies over hash seeds, processes, clocks and existing file trees; the deciding observation is byte equality of directory trees - nothing for a solver to decide",
